@@ -12,6 +12,7 @@ logging.disable(logging.WARNING)
 warnings.filterwarnings('ignore')
 
 TRUSTED = ['np.abs/np.angle/torch.abs/atan2/cos/sin are the real functions up to rounding',
+           'the field utilities of both APIs are regenerated from the source (Generated/WaveKernels.lean) and equal the model definitions by rfl (GenPolar.lean)',
            'Python float % for a positive modulus is x - r*floor(x/r) up to rounding (the float departure x % r == r is searched by the boundary class)']
 ASSUMPTIONS = ['round trip compared with relative tolerance 1e-12 (float64) / 1e-5 (float32)']
 
